@@ -53,23 +53,53 @@ type addrConn struct {
 func (c *addrConn) RemoteAddr() net.Addr { return c.remote }
 func (c *addrConn) LocalAddr() net.Addr  { return c.local }
 
-// peer: Has=false -> the connection reports no address
+// peer: Has=false -> the connection reports no address.
+// TCP=0: a string-typed net.Addr whose String() is Addr; TCP=1/2: a real
+// *net.TCPAddr built from Addr (1: IP in the 16-byte form net.ParseIP returns,
+// 2: IPv4 addresses in 4-byte form), as a TCP connection's RemoteAddr is.
 type peer struct {
 	Has  bool   `json:"has"`
 	Addr string `json:"addr"`
+	TCP  int    `json:"tcp,omitempty"`
 }
 
 func (p peer) netAddr() net.Addr {
 	if !p.Has {
 		return nil
 	}
+	if p.TCP != 0 {
+		h, pt, err := net.SplitHostPort(p.Addr)
+		if err == nil {
+			zone := ""
+			if i := strings.IndexByte(h, '%'); i >= 0 {
+				h, zone = h[:i], h[i+1:]
+			}
+			ip := net.ParseIP(h)
+			port, perr := strconv.Atoi(pt)
+			if ip != nil && perr == nil {
+				if p.TCP == 2 && ip.To4() != nil {
+					ip = ip.To4()
+				}
+				return &net.TCPAddr{IP: ip, Port: port, Zone: zone}
+			}
+		}
+		panic("vh-c18: bad TCP peer " + p.Addr)
+	}
 	return fakeAddr(p.Addr)
+}
+
+// str is what the connection's RemoteAddr().String() reads: the live endpoint.
+func (p peer) str() string {
+	if a := p.netAddr(); a != nil {
+		return a.String()
+	}
+	return ""
 }
 func (p peer) term() string {
 	if !p.Has {
 		return "PNone"
 	}
-	h, pt, err := net.SplitHostPort(p.Addr)
+	h, pt, err := net.SplitHostPort(p.str())
 	if err != nil {
 		return "PBad"
 	}
@@ -112,7 +142,7 @@ func specLeaf(leaf string, remote bool, p peer) (ok bool, why string) {
 		if !p.Has {
 			return false, "addr-no-peer"
 		}
-		h, pt, err := net.SplitHostPort(p.Addr)
+		h, pt, err := net.SplitHostPort(p.str())
 		if err != nil {
 			return false, "addr-bad-peer"
 		}
@@ -157,6 +187,32 @@ type valCase struct {
 	Path   string `json:"path_hex"`
 	Remote bool   `json:"remote"`
 	Peer   peer   `json:"peer"`
+	// SetTmp: the call is made with the environment variable TMPDIR set to Tmp
+	SetTmp int    `json:"tmpdir_mode,omitempty"` // 0 environment as is, 1 TMPDIR=Tmp, 2 TMPDIR unset
+	Tmp    string `json:"tmpdir,omitempty"`
+}
+
+// withTmpdir runs f with TMPDIR set to val (set) or as it is, and restores it.
+// The directory the client may touch is fixed (/tmp); it must not follow the environment.
+func withTmpdir(mode int, val string, f func()) {
+	if mode == 0 {
+		f()
+		return
+	}
+	old, had := os.LookupEnv("TMPDIR")
+	if mode == 1 {
+		os.Setenv("TMPDIR", val)
+	} else {
+		os.Unsetenv("TMPDIR")
+	}
+	defer func() {
+		if had {
+			os.Setenv("TMPDIR", old)
+		} else {
+			os.Unsetenv("TMPDIR")
+		}
+	}()
+	f()
 }
 
 func hx(s string) string { return hex.EncodeToString([]byte(s)) }
@@ -182,17 +238,31 @@ func checkValidate(path string, remote bool, p peer) (leaf string, accepted bool
 	return leaf, true, fail
 }
 
-func addVal(c *core.Ctx, path string, remote bool, p peer) {
-	leaf, acc, fail := checkValidate(path, remote, p)
-	desc := valCase{"val", hx(path), remote, p}
+func addVal(c *core.Ctx, path string, remote bool, p peer) { addValEnv(c, path, remote, p, 0, "") }
+
+// addValEnv: as addVal, with TMPDIR=tmp in the environment of the call when setTmp.
+func addValEnv(c *core.Ctx, path string, remote bool, p peer, setTmp int, tmp string) {
+	var leaf, fail string
+	var acc bool
+	withTmpdir(setTmp, tmp, func() { leaf, acc, fail = checkValidate(path, remote, p) })
+	desc := valCase{"val", hx(path), remote, p, setTmp, tmp}
 	c.OracleCheck()
 	if fail != "" {
+		if setTmp != 0 {
+			fail += fmt.Sprintf(" [TMPDIR mode %d value %q]", setTmp, tmp)
+		}
 		c.OracleFail("validate-accepts-unrecognised", fail, desc)
+	}
+	if setTmp != 0 {
+		c.Count("validate-with-TMPDIR-changed")
+	}
+	if p.TCP != 0 {
+		c.Count("validate-with-TCPAddr-peer")
 	}
 	c.AddCase(fmt.Sprintf("CVal %s %s %s %s", core.Hex([]byte(path)), core.Bool(remote), p.term(), core.Opt(acc, core.Hex([]byte(leaf)))), desc)
 	if acc {
 		c.Count("validate-accept")
-		c.Nontrivial("val|" + path + "|" + fmt.Sprint(remote) + "|" + p.Addr)
+		c.Nontrivial("val|" + path + "|" + fmt.Sprint(remote) + "|" + p.Addr + fmt.Sprint(p.TCP))
 	} else {
 		c.Count("validate-reject")
 	}
@@ -253,7 +323,7 @@ func addEndpoint(c *core.Ctx, ip, port string, p peer) {
 	c.AddCase(fmt.Sprintf("CEndpoint %s %s %s %s", core.Hex([]byte(ip)), core.Hex([]byte(port)), p.term(), core.Bool(err == nil)), desc)
 	c.OracleCheck()
 	if err == nil {
-		h, pt, e2 := net.SplitHostPort(p.Addr)
+		h, pt, e2 := net.SplitHostPort(p.str())
 		a, b := net.ParseIP(ip), net.ParseIP(h)
 		if !p.Has || e2 != nil || pt != port || a == nil || b == nil || !bytes.Equal(a.To16(), b.To16()) {
 			c.OracleFail("endpoint-mismatch-accepted", fmt.Sprintf("verifyFSPathEndpoint(%q,%q) accepted against peer %v", ip, port, p), desc)
@@ -269,8 +339,9 @@ var (
 	ipv6s = []string{"::1", "::", "fe80::1", "2001:db8::68", "0:0:0:0:0:0:0:1", "::ffff:127.0.0.1", "2001:DB8:0:0:8:800:200C:417A", "1:2:3:4:5:6:7:8", "::ffff:7f00:1", "1:2:3:4:5:6:7::", "::2:3:4:5:6:7:8", "64:ff9b::10.0.0.5"}
 	badIPs = []string{"", "1.2.3", "1.2.3.4.5", "256.1.1.1", "01.2.3.4", "127.000.000.001", "1.2.3.", ".1.2.3", "1..2.3", "1.2.3.4 ", "0x7f.0.0.1", ":::", "1:2", "::1::2", "1:2:3:4:5:6:7:8:9", "1:2:3:4:5:6:7:8::", "12345::1", "g::1", "fe80::1%eth0", "fe80::1%", "%eth0", "::ffff:1.2.3", "::ffff:1.2.3.4.5", "1.2.3.4:80", "::1.2.3.4.", "1:2:3:4:5:6:7:1.2.3.4", "1:2:3:4:5:6:1.2.3.4", "::ffff:01.2.3.4", "host", "my-host.example.org", "localhost", "1", "a:", ":a", "::g", "1::2::3", "::00001", "ffff::FFFF", "1.2.3.4%x", "1:2:3:4:5:6:7", "::1.2.3.256"}
 	hosts  = []string{"host", "my-host.example.org", "node_17", "a", "h.", "-", "_", "127.000.000.001", "1.2.3", "x_y_z"}
-	peers  = []peer{{false, ""}, {true, "pipe"}, {true, "127.0.0.1:19618"}, {true, "[::1]:19618"}, {true, "10.0.0.5:80"},
-		{true, "[::ffff:127.0.0.1]:19618"}, {true, "[fe80::1%eth0]:19618"}, {true, "localhost:19618"}, {true, ":19618"}, {true, "127.0.0.1:"}, {true, "127.0.0.1"}, {true, "[0:0:0:0:0:0:0:1]:19618"}, {true, "1.2.3.4:65535"}}
+	peers  = []peer{{false, "", 0}, {true, "pipe", 0}, {true, "127.0.0.1:19618", 0}, {true, "[::1]:19618", 0}, {true, "10.0.0.5:80", 0},
+		{true, "[::ffff:127.0.0.1]:19618", 0}, {true, "[fe80::1%eth0]:19618", 0}, {true, "localhost:19618", 0}, {true, ":19618", 0}, {true, "127.0.0.1:", 0}, {true, "127.0.0.1", 0}, {true, "[0:0:0:0:0:0:0:1]:19618", 0}, {true, "1.2.3.4:65535", 0}}
+	tcpPeers = []peer{{true, "127.0.0.1:19618", 2}, {true, "127.0.0.1:19618", 1}, {true, "[::1]:19618", 1}, {true, "10.0.0.5:80", 2}, {true, "[fe80::1%eth0]:19618", 1}, {true, "[2001:db8::68]:9618", 1}}
 	suffixes    = []string{"12345", "XXXQ8dEz7", "a", "0123456789abcdef", "Z"}
 	badSuffixes = []string{"", "0123456789abcdefg", "a-b", "a.b", "a b", "é", "a\n", "\xff", "a\x00", "a/b", ".."}
 	ports       = []string{"19618", "80", "0", "65535", "99999", "00080"}
@@ -316,7 +387,7 @@ func leafCatalogue() []string {
 var dirCatalogue = []string{"/tmp", "/tmp/", "//tmp", "/tmp//", "/tmp/.", "/tmp/..", "/tmp/sub", "/tmp/sub/..", "/var/tmp", "/", "", "tmp", "./tmp", "../tmp",
 	"/tmp/../tmp", "/TMP", "/tmp2", "/tm", "/tmp\x00", "/tmp/FS_1", "/tmp/FS_REMOTE_h_1_a", "/./tmp", "/../tmp", "/tmp/./.", "/home/user", "/etc", "/tmp ", " /tmp", "/tmp\n", "/tmp/é", "/tmp/\xff", ".", "..", "~", "/proc/self/cwd", "/tmp/sub/sub2"}
 
-func section_validate(c *core.Ctx, tok string) {
+func section_validate(c *core.Ctx, tok string, w *world) {
 	leaves := leafCatalogue()
 	r := c.Rng
 	quick := c.Quick()
@@ -344,7 +415,7 @@ func section_validate(c *core.Ctx, tok string) {
 				path := baseDir + "/" + lf
 				addVal(c, path, remote, p)
 				if _, err := security.VerifValidateFSAuthPath(path, remote, p.netAddr()); err == nil {
-					accepted = append(accepted, valCase{"val", path, remote, p})
+					accepted = append(accepted, valCase{Kind: "val", Path: path, Remote: remote, Peer: p})
 				}
 			}
 		}
@@ -528,6 +599,46 @@ func section_validate(c *core.Ctx, tok string) {
 			}
 		}
 	}
+	// 7. live endpoints of type *net.TCPAddr (what a TCP connection reports) and port
+	// fields that are equal only modulo 2^16, carry zeros/signs, or overflow
+	for _, tp := range tcpPeers {
+		h, pt, _ := net.SplitHostPort(tp.str())
+		pn, _ := strconv.Atoi(pt)
+		names := []string{h}
+		if ip := net.ParseIP(h); ip != nil && ip.To4() != nil {
+			names = append(names, "::ffff:"+ip.To4().String())
+		} else if h == "::1" {
+			names = append(names, "0:0:0:0:0:0:0:1")
+		}
+		portFields := []string{pt, strconv.Itoa(pn + 65536), strconv.Itoa(pn + 2*65536), strconv.Itoa(pn + 1<<32), "0" + pt, "00" + pt, "+" + pt, "-" + pt,
+			strconv.Itoa(pn - 65536), "0", "99999", strconv.Itoa(pn + 1), pt[:len(pt)-1], "9223372036854775808", "18446744073709551616", strconv.Itoa(pn+65536) + "0", ""}
+		for _, nm := range names {
+			for _, pf := range portFields {
+				for _, pfx := range []string{"FS_", "FS_REMOTE_"} {
+					addVal(c, baseDir+"/"+pfx+nm+"_"+pf+"_XXXQ8dEz7", pfx != "FS_", tp)
+				}
+				addEndpoint(c, nm, pf, tp)
+			}
+		}
+		c.Count("tcpaddr-peer-port-field-sweeps")
+	}
+	// 8. the base directory is fixed: TMPDIR in the client's environment must not move it
+	tmps := []struct {
+		mode int
+		val  string
+	}{{1, w.sandbox + "/store"}, {1, "/var/tmp"}, {1, "tmp"}, {1, "/tmp/"}, {1, ""}, {1, "/"}, {1, w.sandbox + "/none"}, {1, "/tmp/../tmp"}, {2, ""}}
+	for _, t := range tmps {
+		under := filepath.Clean(t.val)
+		if t.val == "" || t.mode == 2 {
+			under = "/tmp"
+		}
+		for _, lf := range []string{"FS_12345", "FS_REMOTE_host_42_67890", "FS_127.0.0.1_19618_abc", "FS_x-y", "sub/FS_12345"} {
+			rem := strings.Contains(lf, "REMOTE")
+			addValEnv(c, baseDir+"/"+lf, rem, tcpPeers[0], t.mode, t.val)
+			addValEnv(c, strings.TrimSuffix(under, "/")+"/"+lf, rem, tcpPeers[0], t.mode, t.val)
+			addValEnv(c, t.val+"/"+lf, rem, tcpPeers[0], t.mode, t.val)
+		}
+	}
 	_ = tok
 }
 
@@ -673,6 +784,9 @@ type exch struct {
 	// an address-qualified name must name.
 	SetDeclared bool   `json:"set_declared"`
 	Declared    string `json:"declared"`
+	// TmpMode: environment of the client during the exchange: 0 as is, 1 TMPDIR=Tmp, 2 TMPDIR unset
+	TmpMode int    `json:"tmpdir_mode,omitempty"`
+	Tmp     string `json:"tmpdir,omitempty"`
 }
 
 type exchObs struct {
@@ -692,6 +806,11 @@ var step1Kinds = []string{"ok", "split", "extra", "noeom-close", "close", "trunc
 var step2Kinds = []string{"result0", "result-1", "result7", "close-noread", "partial-read-close", "read-close", "result-extra", "result-noeom-close", "result-short", "result-trunc", "stall-cancel", "result-early"}
 
 func runExchange(w *world, e exch) (o exchObs, err error) {
+	withTmpdir(e.TmpMode, e.Tmp, func() { o, err = runExchangeEnv(w, e) })
+	return
+}
+
+func runExchangeEnv(w *world, e exch) (o exchObs, err error) {
 	path := unhx(e.Path)
 	if e.Watch != "" {
 		w.extra = append(w.extra, e.Watch)
@@ -935,7 +1054,13 @@ func judgeExchange(e exch, o exchObs) (key, msg string) {
 		if len(o.mid) > 0 {
 			extra := ""
 			if e.SetDeclared {
-				extra = fmt.Sprintf(" [live peer %q, stream's declared peer address %q]", e.Peer.Addr, e.Declared)
+				extra = fmt.Sprintf(" [live peer %q, stream's declared peer address %q]", e.Peer.str(), e.Declared)
+			}
+			if e.TmpMode != 0 {
+				extra += fmt.Sprintf(" [client environment: TMPDIR mode %d value %q]", e.TmpMode, e.Tmp)
+			}
+			if e.Peer.Has {
+				extra += fmt.Sprintf(" [live peer %s of type %T]", e.Peer.str(), e.Peer.netAddr())
 			}
 			return "effect-for-rejected-path", fmt.Sprintf("server-supplied path %q (not acceptable: %s) made the client create %q%s", path, why, o.mid, extra)
 		}
@@ -1015,10 +1140,13 @@ type scenario struct {
 	// declared peer address of the stream (SetPeerAddr), when setDecl
 	setDecl  bool
 	declared string
+	tmpMode  int
+	tmp      string
 }
 
 func scenarios(w *world) []scenario {
-	p4 := peers[2]
+	p4 := tcpPeers[0] // a real *net.TCPAddr, as a TCP connection reports
+	pstr := peers[2]  // the same endpoint as a string-typed net.Addr
 	sb := w.sandbox
 	return []scenario{
 		{name: "local-ok", path: func(u string) string { return baseDir + "/FS_" + u }},
@@ -1049,6 +1177,35 @@ func scenarios(w *world) []scenario {
 		{name: "declared-only-no-live-address-name-declared", path: func(u string) string { return baseDir + "/FS_10.9.8.7_9618_" + u }, peer: peers[1], setDecl: true, declared: "<10.9.8.7:9618>"},
 		{name: "declared-only-nil-live-address-name-declared", path: func(u string) string { return baseDir + "/FS_REMOTE_10.9.8.7_9618_" + u }, remote: true, peer: peers[0], setDecl: true, declared: "<10.9.8.7:9618>"},
 		{name: "declared-differs-historical-name", path: func(u string) string { return baseDir + "/FS_" + u }, peer: p4, setDecl: true, declared: "<10.9.8.7:9618>"},
+		// --- live endpoint of type *net.TCPAddr / string-typed, port fields equal only modulo 2^16
+		{name: "addr-local-ok-strpeer", path: func(u string) string { return baseDir + "/FS_127.0.0.1_19618_" + u }, peer: pstr},
+		{name: "addr-remote-wrong-port-strpeer", path: func(u string) string { return baseDir + "/FS_REMOTE_127.0.0.1_19619_" + u }, remote: true, peer: pstr},
+		{name: "tcp-port-plus-65536", path: func(u string) string { return baseDir + "/FS_127.0.0.1_85154_" + u }, peer: p4},
+		{name: "tcp-port-plus-65536-remote", path: func(u string) string { return baseDir + "/FS_REMOTE_127.0.0.1_85154_" + u }, remote: true, peer: p4},
+		{name: "tcp-port-plus-65536-mapped16", path: func(u string) string { return baseDir + "/FS_::ffff:127.0.0.1_85154_" + u }, peer: tcpPeers[1]},
+		{name: "tcp-port-plus-65536-v6", path: func(u string) string { return baseDir + "/FS_REMOTE_::1_85154_" + u }, remote: true, peer: tcpPeers[2]},
+		{name: "tcp-port80-plus-65536", path: func(u string) string { return baseDir + "/FS_10.0.0.5_65616_" + u }, peer: tcpPeers[3]},
+		{name: "tcp-port-leading-zeros", path: func(u string) string { return baseDir + "/FS_10.0.0.5_00080_" + u }, peer: tcpPeers[3]},
+		{name: "strpeer-port-plus-65536", path: func(u string) string { return baseDir + "/FS_127.0.0.1_85154_" + u }, peer: pstr},
+		{name: "tcp-mapped16-name-v4-ok", path: func(u string) string { return baseDir + "/FS_127.0.0.1_19618_" + u }, peer: tcpPeers[1]},
+		{name: "tcp-v4-name-mapped-ok", path: func(u string) string { return baseDir + "/FS_REMOTE_::ffff:127.0.0.1_19618_" + u }, remote: true, peer: p4},
+		{name: "tcp-v6-ok", path: func(u string) string { return baseDir + "/FS_REMOTE_::1_19618_" + u }, remote: true, peer: tcpPeers[2]},
+		{name: "tcp-v6-zoned-peer", path: func(u string) string { return baseDir + "/FS_REMOTE_fe80::1_19618_" + u }, remote: true, peer: tcpPeers[4]},
+		// --- the base directory is fixed: TMPDIR in the client's environment must not move it
+		{name: "tmpdir-scratch-path-under-tmp", path: func(u string) string { return baseDir + "/FS_" + u }, tmpMode: 1, tmp: sb + "/store"},
+		{name: "tmpdir-scratch-path-under-tmpdir", path: func(u string) string { return sb + "/store/FS_" + u }, tmpMode: 1, tmp: sb + "/store"},
+		{name: "tmpdir-scratch-remote-path-under-tmpdir", path: func(u string) string { return sb + "/store/FS_REMOTE_h_42_" + u }, remote: true, tmpMode: 1, tmp: sb + "/store"},
+		{name: "tmpdir-vartmp-path-under-tmpdir", path: func(u string) string { return "/var/tmp/FS_" + u }, watch: func(u string) string { return "/var/tmp/FS_" + u }, tmpMode: 1, tmp: "/var/tmp"},
+		{name: "tmpdir-vartmp-path-under-tmp", path: func(u string) string { return baseDir + "/FS_127.0.0.1_19618_" + u }, peer: p4, tmpMode: 1, tmp: "/var/tmp"},
+		{name: "tmpdir-relative-path-under-tmp", path: func(u string) string { return baseDir + "/FS_" + u }, tmpMode: 1, tmp: "tmp"},
+		{name: "tmpdir-relative-path-under-it-abs", path: func(u string) string { return sb + "/cwd/tmp/FS_" + u }, tmpMode: 1, tmp: "tmp"},
+		{name: "tmpdir-relative-path-relative", path: func(u string) string { return "tmp/FS_" + u }, tmpMode: 1, tmp: "tmp"},
+		{name: "tmpdir-trailing-slash", path: func(u string) string { return baseDir + "/FS_" + u }, tmpMode: 1, tmp: "/tmp/"},
+		{name: "tmpdir-empty", path: func(u string) string { return baseDir + "/FS_" + u }, tmpMode: 1, tmp: ""},
+		{name: "tmpdir-unset", path: func(u string) string { return baseDir + "/FS_REMOTE_h_42_" + u }, remote: true, tmpMode: 2},
+		{name: "tmpdir-root-path-under-root", path: func(u string) string { return "/FS_" + u }, watch: func(u string) string { return "/FS_" + u }, tmpMode: 1, tmp: "/"},
+		{name: "tmpdir-missing-dir-path-under-tmp", path: func(u string) string { return baseDir + "/FS_" + u }, tmpMode: 1, tmp: sb + "/none"},
+		{name: "tmpdir-symlink-to-tmp-path-under-it", path: func(u string) string { return sb + "/lnk/FS_" + u }, tmpMode: 1, tmp: sb + "/lnk"},
 		{name: "addr-no-peer-address", path: func(u string) string { return baseDir + "/FS_127.0.0.1_19618_" + u }, peer: peers[1]},
 		{name: "remote-name-in-local-mode", path: func(u string) string { return baseDir + "/FS_REMOTE_h_42_" + u }},
 		{name: "local-name-in-remote-mode", path: func(u string) string { return baseDir + "/FS_" + u }, remote: true},
@@ -1090,7 +1247,7 @@ func section_exchange(c *core.Ctx, w *world) {
 	mk := func(s scenario, s1, s2 string) exch {
 		u := uniq()
 		e := exch{Kind: "exch", Tok: w.tok, Name: s.name, Path: hx(s.path(u)), Remote: s.remote, Peer: s.peer, Step1: s1, Step2: s2, Pre: s.pre,
-			SetDeclared: s.setDecl, Declared: s.declared}
+			SetDeclared: s.setDecl, Declared: s.declared, TmpMode: s.tmpMode, Tmp: s.tmp}
 		if s.pre != "" {
 			e.PrePath = s.path(u)
 		}
@@ -1369,7 +1526,7 @@ func quietStdout() func() {
 }
 
 func gen(c *core.Ctx) error {
-	c.Rule("A: validateFSAuthPath/fsAddrLeaf/verifyFSPathEndpoint and filepath.Clean/Dir/Base, net.ParseIP on a catalogue of recognised and near-miss leaves x parents x joiners x peers, exhaustive sequences of <=4 components from {'', '.', '..', tmp, FS_1}, every byte value inside a name, over-long fields and random mutations of accepted paths; compared with the Gallina model and judged by an independent restatement of the accepted shapes. B: the whole real client exchange against a raw-wire scripted server (9 ways to deliver the path x 12 ways to continue/end) for 55 path scenarios (17 of them with a declared stream peer address, Stream.SetPeerAddr, that differs from / equals / is not an address / is empty, against names of the live, the declared-only or neither endpoint), with filesystem snapshots (token-named entries of /tmp, a sandbox tree, extra targets) before / at reply / after. C: the real server against 22 kinds of object left at its path. non-trivial = accepted path, exchange that created a directory, accepted server verification")
+	c.Rule("A: validateFSAuthPath/fsAddrLeaf/verifyFSPathEndpoint and filepath.Clean/Dir/Base, net.ParseIP on a catalogue of recognised and near-miss leaves x parents x joiners x peers, exhaustive sequences of <=4 components from {'', '.', '..', tmp, FS_1}, every byte value inside a name, over-long fields and random mutations of accepted paths; compared with the Gallina model and judged by an independent restatement of the accepted shapes. B: the whole real client exchange against a raw-wire scripted server (9 ways to deliver the path x 12 ways to continue/end) for 81 path scenarios (13 with live endpoints of type *net.TCPAddr or string-typed and port fields equal only modulo 2^16 / with leading zeros / IPv4-mapped forms, 13 with TMPDIR set, relative, empty or unset in the client environment, 17 of them with a declared stream peer address, Stream.SetPeerAddr, that differs from / equals / is not an address / is empty, against names of the live, the declared-only or neither endpoint), with filesystem snapshots (token-named entries of /tmp, a sandbox tree, extra targets) before / at reply / after. C: the real server against 22 kinds of object left at its path. non-trivial = accepted path, exchange that created a directory, accepted server verification")
 	c.Assume("kernel path resolution of os.Root (openat2/RESOLVE_BENEATH) and the absence of concurrent symlink swaps under /tmp are assumed, not checked")
 	c.Assume("the harness runs as root: a directory owned by another user is produced by chown; a client that is a different unprivileged user is not exercised")
 	c.Assume("os.OpenRoot(/tmp) failing is modelled but cannot be provoked on the shared /tmp")
@@ -1383,7 +1540,7 @@ func gen(c *core.Ctx) error {
 		return err
 	}
 	defer w.close()
-	section_validate(c, tok)
+	section_validate(c, tok, w)
 	section_exchange(c, w)
 	section_server(c, w)
 	c.Sample(map[string]interface{}{"token": tok, "sandbox": w.sandbox})
@@ -1404,7 +1561,9 @@ func replay(raw json.RawMessage) error {
 	case "val":
 		var v valCase
 		json.Unmarshal(raw, &v)
-		if _, _, fail := checkValidate(unhx(v.Path), v.Remote, v.Peer); fail != "" {
+		var fail string
+		withTmpdir(v.SetTmp, v.Tmp, func() { _, _, fail = checkValidate(unhx(v.Path), v.Remote, v.Peer) })
+		if fail != "" {
 			return errors.New(fail)
 		}
 		return nil
